@@ -154,6 +154,13 @@ class CaseEval:
                 self.raised = True  # TypeError at run time
                 raise Undecided(f"`{norm(e)}` orders None")
             raise Undecided(f"cannot decide `{norm(e)}`")
+        if isinstance(e, ast.Call) and norm(e.func) in ("np.asarray", "np.array", "numpy.asarray", "numpy.array", "np.copy") and len(e.args) >= 1:
+            v = self.ev(e.args[0])
+            if v.kind in ("arrayN", "array1"):
+                return v  # still the caller's data (converted/copied)
+            if v.kind == "none":
+                return AV("fresh", None, "array(None)")
+            return fresh(e)
         if isinstance(e, ast.Call) and isinstance(e.func, ast.Name):
             if e.func.id == "isinstance" and len(e.args) == 2:
                 v = self.ev(e.args[0])
